@@ -7,6 +7,7 @@
   created in this history, same (table, column names) view.
 -/
 import SqlizeModel.Proofs.ColOps
+import SqlizeModel.Proofs.Frame
 import SqlizeModel.Spec.Exec
 
 namespace Sqlize
@@ -73,6 +74,36 @@ theorem replace_eq_set (db : DB) (hnd : (db.map (·.name)).Nodup) (i : Nat) (tb 
       simp only [List.map_cons, List.set_cons_succ, this, Bool.false_eq_true, if_false, List.cons.injEq, true_and]
       exact ih hr j hj
 
+theorem replace_self (db : DB) (hnd : (db.map (·.name)).Nodup) (i : Nat) (tb : TableSpec) (h : db[i]? = some tb) :
+    db.replace tb = db := by
+  rw [replace_eq_set db hnd i tb tb h rfl]
+  obtain ⟨hi, he⟩ := List.getElem?_eq_some_iff.mp h
+  rw [← he]; exact List.set_getElem_self hi
+
+/-- in a duplicate-free list, erasing position `i` is filtering its element out -/
+theorem eraseIdx_eq_filter (l : List String) (hl : l.Nodup) (i : Nat) (c : String) (h : l[i]? = some c) :
+    l.eraseIdx i = l.filter (· != c) := by
+  induction l generalizing i with
+  | nil => simp at h
+  | cons x r ih =>
+    have hx : x ∉ r := (List.nodup_cons.mp hl).1
+    have hr : r.Nodup := (List.nodup_cons.mp hl).2
+    cases i with
+    | zero =>
+      have : x = c := by simpa using h
+      subst this
+      simp only [List.eraseIdx_cons_zero, List.filter_cons, bne_self_eq_false, Bool.false_eq_true, if_false]
+      rw [List.filter_eq_self.mpr]
+      intro y hy
+      have : y ≠ x := fun e => hx (e ▸ hy)
+      simpa using this
+    | succ j =>
+      have hj : r[j]? = some c := by simpa using h
+      have hne : x ≠ c := fun e => hx (e ▸ List.mem_of_getElem? hj)
+      have : (x != c) = true := by simpa using hne
+      simp only [List.eraseIdx_cons_succ, List.filter_cons, this, if_true, List.cons.injEq, true_and]
+      exact ih hr j hj
+
 theorem has_iff (db : DB) (t : String) : db.has t = true ↔ t ∈ db.map (·.name) := by
   unfold DB.has
   rw [List.any_eq_true]
@@ -123,7 +154,7 @@ structure Rel (m : Migration) (db : DB) : Prop where
 
 namespace Rel
 
-theorem empty : Rel {} [] := ⟨Migration.inv_empty, Migration.noPending_empty, by intro t ht; cases ht, rfl⟩
+theorem empty : Rel {} [] := ⟨Migration.inv_empty, Migration.noPending_empty, (by intro t ht; cases ht), rfl⟩
 
 variable {m : Migration} {db : DB}
 
@@ -135,6 +166,16 @@ theorem nodup (h : Rel m db) : (db.map (·.name)).Nodup := by rw [h.names]; exac
 theorem length_eq (h : Rel m db) : db.length = m.tables.length := by
   have := congrArg List.length h.view
   simpa [colView, specView] using this.symm
+
+/-- `Rel` sees the tables and the table map only -/
+theorem of_tables {m' : Migration} (h : Rel m db) (ht : m'.tables = m.tables) (hi : m'.tblIdx = m.tblIdx) : Rel m' db := by
+  refine ⟨⟨?_, ?_⟩, ?_, ?_, ?_⟩
+  · show NInv (m'.tables.map (·.name)) m'.tblIdx
+    rw [ht, hi]; exact h.inv.tbls
+  · intro x hx; rw [ht] at hx; exact h.inv.each x hx
+  · intro x hx; rw [ht] at hx; exact h.np x hx
+  · intro x hx; rw [ht] at hx; exact h.fresh x hx
+  · unfold colView; rw [ht]; exact h.view
 
 theorem using_ (h : Rel m db) (x : String) : Rel (m.using_ x) db :=
   ⟨Migration.using_inv m x h.inv, using_noPending m x h.np, by rw [using_tables]; exact h.fresh,
@@ -196,6 +237,67 @@ theorem update (h : Rel m db) {id : Nat} {tm tm' : Table} {tb tb' : TableSpec} (
     have := h.view
     unfold colView specView at this
     rw [this, hname, hnm, hn', hcols]
+
+
+/-- CREATE TABLE, first half: a table unknown to both sides is appended to both -/
+theorem append_table (h : Rel m db) (tm : Table) (tb : TableSpec) (hi : tm.Inv) (ha : tm.AllAdd) (hact : tm.action = .add)
+    (hp : tm.pendingPos = none) (hn : tm.name = tb.name) (hc : tm.colNames = tb.colNames) (hnew : db.has tb.name = false) :
+    ∃ m', m.addTable tm = .ok m' ∧ Rel m' (db ++ [tb]) ∧ m'.cursor = m.cursor := by
+  have hg : m.tblIdx.get? tm.name = none := by rw [hn]; exact h.unknown hnew
+  have hs : m.addTable tm = .ok { m with tables := m.tables ++ [tm], tblIdx := m.tblIdx.set tm.name m.tables.length } := by
+    unfold Migration.addTable
+    rw [hg]
+    rfl
+  refine ⟨_, hs, ⟨Migration.addTable_inv m _ tm h.inv hi hs, Migration.addTable_pending m _ tm h.np hp hs, ?_, ?_⟩, rfl⟩
+  · intro x hx
+    have hx : x ∈ m.tables ++ [tm] := hx
+    rcases List.mem_append.mp hx with h1 | h1
+    · exact h.fresh x h1
+    · rw [List.mem_singleton.mp h1]; exact ⟨ha, hact⟩
+  · unfold colView specView
+    show (m.tables ++ [tm]).map _ = (db ++ [tb]).map _
+    rw [List.map_append, List.map_append]
+    have := h.view
+    unfold colView specView at this
+    rw [this, List.map_singleton, List.map_singleton, hn, hc]
+
+theorem resolve_ne (m : Migration) {t : String} (ht : t ≠ "") : m.resolve t = t := by
+  unfold Migration.resolve
+  have : (t == "") = false := by simpa using ht
+  simp [this]
+
+/-- a statement that edits the named, existing table; the edit's effect on the column names is the reference engine's -/
+theorem edited (h : Rel m db) {t : String} {tb tb' : TableSpec} (hf : db.find t = some tb)
+    (hn : tb'.name = tb.name) (site : String) (f : Table → M Table)
+    (hedit : ∀ tm, tm.Inv → tm.AllAdd → tm.pendingPos = none → tm.colNames = tb.colNames →
+      ∃ tm', f tm = .ok tm' ∧ tm'.Inv ∧ tm'.name = tm.name ∧ tm'.AllAdd ∧ tm'.action = tm.action ∧
+        tm'.pendingPos = none ∧ tm'.colNames = tb'.colNames) :
+    ∃ m', (do let (m1, i) ← m.ensureTable t; m1.onTable site i f) = .ok m' ∧ Rel m' (db.replace tb') ∧
+      m'.cursor = m.cursor := by
+  obtain ⟨id, tm, hg, hm, hd, hnm, hcols, htn⟩ := h.lookup hf
+  have hmem := List.mem_of_getElem? hm
+  obtain ⟨tm', hft, hi', hn', ha', hact', hp', hc'⟩ :=
+    hedit tm (h.inv.each tm hmem) (h.fresh tm hmem).1 (h.np tm hmem) hcols
+  refine ⟨{ m with tables := m.tables.set id tm' }, Migration.edit_known m t site f id tm tm' hg hm hft, ?_, rfl⟩
+  exact h.update hm hd hi' hn' ha' (by rw [hact']; exact (h.fresh tm hmem).2) hp' hn hc' (hnm.trans htn.symm)
+
+/-- a statement that edits the named, existing table by a total primitive which keeps names and actions of the columns,
+    while the reference engine leaves that table's columns alone -/
+theorem framed (h : Rel m db) {t : String} {tb tb' : TableSpec} (hf : db.find t = some tb)
+    (hn : tb'.name = tb.name) (hc : tb'.colNames = tb.colNames) (site : String) (f : Table → M Table)
+    (htot : ∀ tm, tm.Inv → ∃ tm', f tm = .ok tm')
+    (hfr : ∀ tm tm', tm.Inv → f tm = .ok tm' → tm'.Inv ∧ tm'.name = tm.name ∧ Table.Frame tm tm') :
+    ∃ m', (do let (m1, i) ← m.ensureTable t; m1.onTable site i f) = .ok m' ∧ Rel m' (db.replace tb') := by
+  obtain ⟨id, tm, hg, hm, hd, hnm, hcols, htn⟩ := h.lookup hf
+  have hmem := List.mem_of_getElem? hm
+  have hi := h.inv.each tm hmem
+  obtain ⟨tm', hft⟩ := htot tm hi
+  obtain ⟨hi', hn', hframe⟩ := hfr tm tm' hi hft
+  refine ⟨_, Migration.edit_known m t site f id tm tm' hg hm hft, ?_⟩
+  refine h.update hm hd hi' hn' (Table.allAdd_of_sig hframe.sig (h.fresh tm hmem).1) ?_ ?_ hn ?_ (hnm.trans htn.symm)
+  · rw [hframe.action]; exact (h.fresh tm hmem).2
+  · rw [hframe.pending]; exact h.np tm hmem
+  · rw [Table.names_of_sig hframe.sig, hcols, hc]
 
 end Rel
 end Sqlize
